@@ -214,6 +214,14 @@ class DataPacketReceiver(Elaboratable):
                     # Move to receiving data.
                     m.next = "RECEIVE_PAYLOAD"
 
+                # If another header packet starts right away, this one had no payload; receive the new one.
+                with m.Elif(stream_matches_symbols(sink, SHP, SHP, SHP, EPF)):
+                    m.d.comb += [
+                        crc16.clear.eq(1),
+                        crc32.clear.eq(1),
+                    ]
+                    m.next = "RECEIVE_DW0"
+
                 # If our data is valid and we're -not- a start of DPP, this isn't for us.
                 # Go back to watching for data.
                 with m.Elif(sink.valid):
